@@ -153,7 +153,7 @@ def cli_paths(ctx):
             return [[]]
         s, rest = stmts[0], stmts[1:]
         if isinstance(s, ast.If):
-            pre = [] if tr.pure(s.test) else ["Compute"]
+            pre = ["WriteStream"] if mentions_stdout(s.test) else ([] if tr.pure(s.test) else ["Compute"])
             out = []
             for br in (s.body, s.orelse):
                 for p1 in paths(list(br) + list(rest)):
@@ -234,15 +234,125 @@ def special_inputs():
     out.append(("html", "special:html-newline-title", b"<html><head><title>a\nb</title></head><body>x</body></html>"))
     out.append(("rtf", "special:rtf-surrogates", b"{\\rtf1 \\u55357?\\u56832? x}"))
     out.append(("json", "special:json", b'{"a": 1}'))
+    good = (b"From a@x.org Mon Jan  1 00:00:00 2024\nFrom: A <a@x.org>\nTo: B <b@x.org>\nSubject: one\n"
+            b"Date: Mon, 01 Jan 2024 00:00:00 +0000\nMessage-ID: <1@x.org>\n\nfirst body\n\n")
+    bad = (b"From c@x.org Tue Jan  2 00:00:00 2024\nFrom: C <c@x.org>\nTo: B <b@x.org>\nSubject: two\n"
+           b"Message-ID: <2@x.org>\n\nsecond body (no Date header)\n")
+    out.append(("mbox", "special:mbox-second-message-fails", good + bad))
+    out.append(("mbox", "special:mbox-two-good", good + good))
+    out.append(("html", "special:html-nul-in-charset", b'<html><head><meta charset="utf\x00-8"></head><body>x</body></html>'))
+    out.append(("mhtml", "special:mhtml-nul-in-charset", b'MIME-Version: 1.0\nContent-Type: text/html\n\n'
+                b'<html><head><meta charset="utf\x00-8"></head><body>x</body></html>'))
+    out.append(("txt", "special:txt-nul", b"a\x00b"))
     return out
+
+
+def crafted_jpeg(rng):
+    """JPEG-like marker streams incl. fill bytes, truncated segments, zero/short lengths."""
+    import struct
+    buf = bytearray(b"\xff\xd8")
+    for _ in range(rng.randint(0, 6)):
+        r = rng.random()
+        if r < 0.55:
+            m = rng.choice([0xE0, 0xE1, 0xDB, 0xC4, 0xC0, 0xC2, 0xFF, 0xD9, 0xDA, 0x00, 0x01])
+            payload = rng.randbytes(rng.randint(0, 14))
+            ln = len(payload) + 2 if rng.random() < 0.75 else rng.choice([0, 1, 2, 3, 65535, rng.randint(0, 40)])
+            buf += bytes([0xFF, m]) + struct.pack(">H", ln) + payload
+        elif r < 0.8:
+            buf += rng.randbytes(rng.randint(1, 6))
+        else:
+            buf += b"\xff" * rng.randint(1, 5)
+    return bytes(buf)
+
+
+def image_member_cases(rng, n):
+    """OOXML/ODF fixtures whose embedded image members are replaced by crafted image bytes."""
+    import io
+    import zipfile
+    import c01_fuzz
+    fx = c01_fuzz.fixtures()
+    out = []
+    pool = [(ext, name, b) for ext in ("docx", "pptx", "xlsx", "odt", "odp", "ods", "epub") for name, b in fx.get(ext, [])]
+    withimg = []
+    for ext, name, b in pool:
+        try:
+            z = zipfile.ZipFile(io.BytesIO(b))
+            imgs = [x for x in z.namelist() if x.lower().endswith((".png", ".jpg", ".jpeg", ".gif", ".bmp"))]
+            if imgs:
+                withimg.append((ext, name, b, imgs))
+        except Exception:  # noqa
+            pass
+    for i in range(n):
+        if not withimg:
+            break
+        ext, name, b, imgs = withimg[i % len(withimg)]
+        zin = zipfile.ZipFile(io.BytesIO(b))
+        buf = io.BytesIO()
+        with zipfile.ZipFile(buf, "w", zipfile.ZIP_DEFLATED) as zout:
+            for nme in zin.namelist():
+                data = zin.read(nme)
+                if nme in imgs:
+                    r = rng.random()
+                    data = crafted_jpeg(rng) if r < 0.6 else (data[: rng.randint(0, 40)] if r < 0.8 else rng.randbytes(30))
+                zout.writestr(nme, data)
+        out.append((ext, f"image-member:{name}", buf.getvalue()))
+    return out
+
+
+def guarded_calls(fn_path, inputs, timeout=20.0):
+    """Call module.function on every input in a forked child with a watchdog.
+    Returns (results list with None for not-run, index of the input that hung or None)."""
+    import multiprocessing as mp
+    ctxm = mp.get_context("fork")
+    q = ctxm.Queue()
+
+    def child():
+        import importlib
+        mod, fn = fn_path.rsplit(".", 1)
+        f = getattr(importlib.import_module(mod), fn)
+        for i, a in enumerate(inputs):
+            q.put(("start", i, None))
+            try:
+                r = f(*a)
+                if hasattr(r, "__next__"):
+                    r = list(r)
+            except Exception as e:  # noqa
+                r = ("EXC", type(e).__name__)
+            q.put(("done", i, r))
+        q.put(("end", -1, None))
+
+    p = ctxm.Process(target=child, daemon=True)
+    p.start()
+    results = [None] * len(inputs)
+    cur, t_last, hung = -1, time.time(), None
+    while True:
+        try:
+            tag, i, r = q.get(timeout=0.5)
+            t_last = time.time()
+            if tag == "start":
+                cur = i
+            elif tag == "done":
+                results[i] = ("ok", r)
+            else:
+                break
+        except Exception:  # noqa
+            if not p.is_alive() and q.empty():
+                break
+            if time.time() - t_last > timeout:
+                hung = cur
+                p.kill()
+                break
+    p.join(timeout=2)
+    return results, hung
 
 
 def fuzz(ctx):
     import c01_fuzz
     rng = ctx.rng
     base = c01_fuzz.build_cases(rng, ctx.n(60, 400))
+    base = base + special_inputs() + image_member_cases(rng, ctx.n(40, 400))
     cases = [(k, lab, b, None) for k, lab, b in base]
-    cli_src = [c for c in base if c[1].startswith("fixture:")] + special_inputs()
+    cli_src = [c for c in base if c[1].startswith(("fixture:", "special:"))]
     muts = [c for c in base if not c[1].startswith("fixture:")]
     rng.shuffle(muts)
     cli_src += muts[: ctx.n(150, 800)]
@@ -278,25 +388,30 @@ def fuzz(ctx):
             ctx.finding(f"cli:{what}:{k}:{' '.join(m)}:{kind}", f"CLI contract broken for {lab} {m}: {det}", rp)
         if secs > 10:
             ctx.count("slow>10s")
-    for i, k, lab, b, m in slow[:5]:
-        r2 = c01_fuzz.run_cases([(k, lab, b, m)], nproc=1, case_timeout=90, total_timeout=100)
-        oc, det, secs = r2.get(0, ("timeout", "", 90))
+    for i, k, lab, b, m in slow[:2]:
+        r2 = c01_fuzz.run_cases([(k, lab, b, m)], nproc=1, case_timeout=60, total_timeout=70)
+        oc, det, secs = r2.get(0, ("timeout", "", 60))
         if oc == "timeout":
-            ctx.finding(f"hang:{k}:{lab}", f"{k} extractor did not finish within 90 s on {lab} ({len(b)} bytes)",
+            ctx.finding(f"hang:{k}:{lab}", f"{k} extractor did not finish within 60 s on {lab} ({len(b)} bytes)",
                         {"registry_key": k, "label": lab, "cli_args": m, "input": b})
         else:
             ctx.count("slow-but-finished")
 
 
 def loop_correspondence(ctx):
-    """Model loops (vm_compute) vs the real functions on generated byte strings."""
+    """Model loops (vm_compute) vs the real functions on generated byte strings; the real functions run in a
+    forked child under a watchdog so that a non-terminating implementation is reported with its input."""
     import struct
-    from sharepoint2text.parsing.extractors.ms_legacy import ppt_extractor
-    from sharepoint2text.parsing.extractors.util import image_utils
     rng = ctx.rng
     zl = lambda b: "[" + ";".join(str(x) for x in b) + "]%Z"
-    # _iter_records: streams of (mostly) well-formed records + garbage
-    cases, info = [], []
+    pre = "From Coq Require Import List ZArith.\nFrom S2T Require Import C01.Loops C01.Corr.\nImport ListNotations.\n"
+
+    def hang(fn, data, extra=None):
+        ctx.finding(f"hang:{fn}", f"{fn} does not terminate (no result within 20 s) on a {len(data)}-byte input {data[:24].hex()}…",
+                    {"function": fn, "input": data, "args": extra})
+
+    # ---- ppt_extractor._iter_records
+    inputs = []
     for _ in range(ctx.n(300, 3000)):
         buf = bytearray()
         for _ in range(rng.randint(0, 6)):
@@ -311,39 +426,59 @@ def loop_correspondence(ctx):
             else:
                 buf += b"\xff" * rng.randint(1, 8)
         data = bytes(buf)
-        start = rng.choice([0, 0, 0, 1, 8, len(data)])
-        got = [(r.rec_type, r.rec_instance, r.is_container, r.offset, r.end_offset) for r in ppt_extractor._iter_records(data, start)]
+        inputs.append((data, rng.choice([0, 0, 0, 1, 8, len(data)])))
+    fn = "sharepoint2text.parsing.extractors.ms_legacy.ppt_extractor._iter_records"
+    res, hung = guarded_calls(fn, inputs)
+    if hung is not None:
+        hang(fn, inputs[hung][0], inputs[hung][1])
+    cases, info = [], []
+    for (data, start), r in zip(inputs, res):
+        if r is None or (isinstance(r[1], tuple) and r[1] and r[1][0] == "EXC"):
+            continue
+        got = [(x.rec_type, x.rec_instance, x.is_container, x.offset, x.end_offset) for x in r[1]]
         ctx.case(("iter_records", data, start), len(got) > 0, kind="loop:iter_records")
         cases.append(f"({zl(data)}, {start}%Z, [" + ";".join(
             f"({a}, {b}, {'true' if c else 'false'}, {d}, {e})" for a, b, c, d, e in got) + "]%Z)")
         info.append((data.hex(), start))
-    pre = "From Coq Require Import List ZArith.\nFrom S2T Require Import C01.Loops C01.Corr.\nImport ListNotations.\n"
     ok, failing, log = common.coq_eval_shards(ctx, "iter", pre, "iter_case", cases, shard=400, ty="list Z * Z * list rec")
-    ctx.obligation("correspondence:iter_records==ppt_extractor._iter_records", ok and not failing,
-                   (f"{len(failing)} disagreements, first: {info[failing[0]] if failing else ''} " + log)[:800])
-    # get_jpeg_dimensions
+    ctx.obligation("correspondence:iter_records==ppt_extractor._iter_records", ok and not failing and hung is None and len(cases) > 50,
+                   (f"{len(failing)} disagreements, first: {info[failing[0]] if failing else ''} hung={hung} " + log)[:800])
+
+    # ---- JPEG walks
+    jpegs = [crafted_jpeg(rng) for _ in range(ctx.n(400, 4000))]
+    fn = "sharepoint2text.parsing.extractors.util.image_utils.get_jpeg_dimensions"
+    res, hung = guarded_calls(fn, [(d,) for d in jpegs])
+    if hung is not None:
+        hang(fn, jpegs[hung])
     cases, info = [], []
-    for _ in range(ctx.n(300, 3000)):
-        buf = bytearray(b"\xff\xd8")
-        for _ in range(rng.randint(0, 6)):
-            r = rng.random()
-            if r < 0.5:
-                m = rng.choice([0xE0, 0xE1, 0xDB, 0xC4, 0xC0, 0xC2, 0xFF, 0xD9, 0xDA, 0x00])
-                payload = rng.randbytes(rng.randint(0, 14))
-                ln = len(payload) + 2 if rng.random() < 0.8 else rng.choice([0, 1, 2, 65535, rng.randint(0, 40)])
-                buf += bytes([0xFF, m]) + struct.pack(">H", ln) + payload
-            elif r < 0.8:
-                buf += rng.randbytes(rng.randint(1, 6))
-            else:
-                buf += b"\xff" * rng.randint(1, 5)
-        data = bytes(buf)
-        w, h = image_utils.get_jpeg_dimensions(data)
+    for data, r in zip(jpegs, res):
+        if r is None or (r[1] and r[1][0] == "EXC"):
+            continue
+        w, h = r[1]
         ctx.case(("jpeg", data), w is not None, kind="loop:jpeg_dims")
         cases.append(f"({zl(data)}, " + ("None" if w is None else f"Some ({w}, {h})%Z") + ")")
         info.append(data.hex())
     ok, failing, log = common.coq_eval_shards(ctx, "jpeg", pre, "jpeg_case", cases, shard=400, ty="list Z * option (Z * Z)")
-    ctx.obligation("correspondence:jpeg_dims==image_utils.get_jpeg_dimensions", ok and not failing,
-                   (f"{len(failing)} disagreements, first: {info[failing[0]] if failing else ''} " + log)[:800])
+    ctx.obligation("correspondence:jpeg_dims==image_utils.get_jpeg_dimensions", ok and not failing and hung is None and len(cases) > 50,
+                   (f"{len(failing)} disagreements, first: {info[failing[0]] if failing else ''} hung={hung} " + log)[:800])
+    for modname in ("docx_extractor", "pptx_extractor", "xlsx_extractor"):
+        fn = f"sharepoint2text.parsing.extractors.ms_modern.{modname}._get_image_pixel_dimensions"
+        res, hung = guarded_calls(fn, [(d,) for d in jpegs])
+        if hung is not None:
+            hang(fn, jpegs[hung])
+        cases, info = [], []
+        for data, r in zip(jpegs, res):
+            if r is None or (r[1] and r[1][0] == "EXC"):
+                continue
+            w, h = r[1]
+            ctx.case((modname, data), w is not None, kind="loop:ooxml_jpeg_dims")
+            cases.append(f"({zl(data)}, ({w or 0}, {h or 0})%Z)")
+            info.append(data.hex())
+        ok, failing, log = common.coq_eval_shards(ctx, "oj_" + modname, pre, "ooxml_jpeg_case", cases, shard=400,
+                                                  ty="list Z * (Z * Z)")
+        ctx.obligation(f"correspondence:ooxml_jpeg_dims=={modname}._get_image_pixel_dimensions(JPEG)",
+                       ok and not failing and hung is None and len(cases) > 50,
+                       (f"{len(failing)} disagreements, first: {info[failing[0]] if failing else ''} hung={hung} " + log)[:800])
 
 
 def run(ctx):
@@ -366,7 +501,8 @@ def run(ctx):
     loop_inventory(ctx)
     fuzz(ctx)
     ctx.prove("C01/Props.v", ["C01/ExnProofs.vo", "C01/LoopsProofs.vo", "C01/Corr.vo"], expected=[
-        "C01_esc_sound", "C01_contained_sound", "C01_iter_records_terminates", "C01_jpeg_dims_terminates"])
+        "C01_esc_sound", "C01_contained_sound", "C01_iter_records_terminates", "C01_jpeg_dims_terminates",
+        "C01_ooxml_jpeg_dims_terminates"])
     loop_correspondence(ctx)
     ctx.prove("C01/Inst.v", ["Gen/C01Skeletons.vo", "C01/ExnProofs.vo"], expected=[
         "C01_all_contained", "C01_no_foreign_exception_escapes", "C01_silent_wrappers", "C01_silent_sound",
